@@ -30,10 +30,28 @@ use crate::{
 mod backward_projection;
 mod caller;
 mod computing;
+#[cfg_attr(
+    feature = "verif",
+    allow(
+        missing_docs,
+        missing_debug_implementations,
+        missing_copy_implementations,
+        unreachable_pub
+    )
+)]
 mod database;
 mod dirty_worker;
 mod fast_path;
 mod input_session;
+#[cfg_attr(
+    feature = "verif",
+    allow(
+        missing_docs,
+        missing_debug_implementations,
+        missing_copy_implementations,
+        unreachable_pub
+    )
+)]
 mod query_lock_manager;
 mod register_callee;
 mod repair;
@@ -41,6 +59,13 @@ mod slow_path;
 mod statistic;
 mod tfc_achetype;
 mod visualization;
+
+#[cfg(feature = "verif")]
+pub use database::CompressedBackwardEdgeSet;
+#[cfg(feature = "verif")]
+pub use query_lock_manager::{
+    QueryLock, QueryLockManager as VerifQueryLockManager,
+};
 
 #[derive(
     Debug,
